@@ -60,9 +60,9 @@ theorem parse_off_clean (c : Cls) (name : Nat) (f : File) (t : Tmpl)
     · rw [if_neg h2] at h
       cases c <;> simp at h
 
-/-- parsing keeps the items of the file -/
+/-- parsing keeps the items of the file, and succeeds only with the class the file is written for -/
 theorem parse_items (c : Cls) (flag : Bool) (name : Nat) (f : File) (t : Tmpl)
-    (h : parseFile c flag name f = .ok t) : t.items = f.items ∧ t.name = name := by
+    (h : parseFile c flag name f = .ok t) : t.items = f.items ∧ t.name = name ∧ t.cls = f.syn := by
   unfold parseFile at h
   by_cases h1 : f.syn ≠ c
   · rw [if_pos h1] at h
@@ -71,9 +71,10 @@ theorem parse_items (c : Cls) (flag : Bool) (name : Nat) (f : File) (t : Tmpl)
     · rw [if_neg h2] at h; cases h
   · rw [if_neg h1] at h
     by_cases h2 : noCode f.items = true
-    · rw [if_pos h2] at h; cases h; exact ⟨rfl, rfl⟩
+    · rw [if_pos h2] at h; cases h; exact ⟨rfl, rfl, (Decidable.not_not.mp h1).symm⟩
     · rw [if_neg h2] at h
-      cases c <;> cases flag <;> simp at h <;> (cases h; exact ⟨rfl, rfl⟩)
+      have hs : c = f.syn := (Decidable.not_not.mp h1).symm
+      cases c <;> cases flag <;> simp at h <;> (cases h; exact ⟨rfl, rfl, hs⟩)
 
 theorem lookup_cons_some {α β : Type} [BEq α] [LawfulBEq α] (k k' : α) (v v' : β) (l : List (α × β))
     (h : ((k', v') :: l).lookup k = some v) : (k = k' ∧ v = v') ∨ l.lookup k = some v := by
@@ -392,7 +393,7 @@ inductive Reaches (fs : FS) : Nat → Nat → Prop
   | step (a b c : Nat) : Inc fs a b → Reaches fs b c → Reaches fs a c
 
 /-- a template object is the parse of the file of its name -/
-def TF (fs : FS) (t : Tmpl) : Prop := ∃ f, fs.lookup t.name = some f ∧ t.items = f.items
+def TF (fs : FS) (t : Tmpl) : Prop := ∃ f, fs.lookup t.name = some f ∧ t.items = f.items ∧ t.cls = f.syn
 
 /-- every cached template object sits under its own name and is the parse of that file -/
 def Faithful (fs : FS) (st : St) : Prop :=
@@ -431,8 +432,8 @@ theorem load_faithful (fs : FS) (st st' : St) (name : Nat) (c : Cls) (abs : Bool
           | ok t1 =>
               rw [hp] at h
               cases h
-              obtain ⟨hi, hn⟩ := parse_items c st.flag name f t hp
-              have htf : TF fs t := ⟨f, by rw [hn]; exact hfile, hi⟩
+              obtain ⟨hi, hn, hcls⟩ := parse_items c st.flag name f t hp
+              have htf : TF fs t := ⟨f, by rw [hn]; exact hfile, hi, hcls⟩
               refine ⟨?_, ?_, hn, htf, ⟨abs, t, by simp [List.lookup]⟩⟩
               · intro k t2 hk
                 rcases lookup_cons_some k (name, abs) t2 t st.cache hk with ⟨rfl, rfl⟩ | h2
@@ -677,12 +678,13 @@ theorem gen_closure (fuel pf : Nat) (fs : FS) :
                         | refl => exact (hloaded.mono hg_grows.2).mono hrest_mono
                         | step _ m _ hinc hmb =>
                             obtain ⟨f, p', dyn', hfl, hmem'⟩ := hinc
-                            obtain ⟨f1, hf1l, hitems⟩ := htf1
+                            have htf1' := htf1
+                            obtain ⟨f1, hf1l, hitems, _⟩ := htf1
                             rw [hname] at hf1l
                             rw [hfl] at hf1l
                             cases hf1l
                             rw [← hitems] at hmem'
-                            exact (ih pr' h' k' t1 s1 s2 hf1 ⟨f, by rw [hname]; exact hfl, hitems⟩ hg m p' dyn' hmem' b hmb).mono hrest_mono
+                            exact (ih pr' h' k' t1 s1 s2 hf1 htf1' hg m p' dyn' hmem' b hmb).mono hrest_mono
       exact (inner t.items start hstart.1 h).2
 
 theorem histStep_faithful (fuel pf : Nat) (fs : FS) (st : St) (name : Nat) (hf : Faithful fs st) :
